@@ -74,6 +74,24 @@ def analyse_scope(prog, cg, scope):
         if assume:
             an.entry_nottag[fid] = assume
             changed.append(fid)
+    # closures handed to Option::map: the payload range at the (only) call site bounds the closure's parameter
+    for fid, sites in sorted(an.site_bounds.items()):
+        if fid not in scope or fid not in prog.fns:
+            continue
+        uses = [s for s in cg.sites_to(fid)]
+        if len(uses) != len(sites) or any(s.caller.id not in scope for s in uses):
+            continue
+        assume = {}
+        for pth in sites[0]:
+            los, his = [s.get(pth, (None, None))[0] for s in sites], [s.get(pth, (None, None))[1] for s in sites]
+            lo = None if None in los else min(los)
+            hi = None if None in his else max(his)
+            if lo is not None or hi is not None:
+                assume[pth] = (lo, hi)
+        if assume:
+            an.entry_bounds[fid] = assume
+            if fid not in changed:
+                changed.append(fid)
     for fid in changed:
         an.site_nottag = {}
         ins, outs, obl = an.analyze(prog.fns[fid])
